@@ -650,7 +650,37 @@ func checkTypeIndexPrePass(c *core.Ctx) {
 		validates bool // calls the per-function validator
 	}
 	var loops []loop
+	// the top-level statements of the function, with the steps it was split into spliced in (one level): a statement
+	// that calls a method of the package stands for that method's top-level statements
+	var flat []ast.Stmt
 	for _, st := range vf.Body.List {
+		spliced := false
+		if _, isLoop := st.(*ast.RangeStmt); !isLoop {
+			ast.Inspect(st, func(x ast.Node) bool {
+				if call, ok := x.(*ast.CallExpr); ok && !spliced {
+					if f := core.Callee(info, call); f != nil && f.Pkg() == p.Types && f.Name() != "validateFunction" {
+						if hd := declOf(p, f); hd != nil && hd != vf {
+							hasLoop := false
+							for _, hs := range hd.Body.List {
+								if rs, ok := hs.(*ast.RangeStmt); ok && strings.HasSuffix(core.ExprStr(rs.X), "FunctionSection") {
+									hasLoop = true
+								}
+							}
+							if hasLoop {
+								flat = append(flat, hd.Body.List...)
+								spliced = true
+							}
+						}
+					}
+				}
+				return true
+			})
+		}
+		if !spliced {
+			flat = append(flat, st)
+		}
+	}
+	for _, st := range flat {
 		rs, ok := st.(*ast.RangeStmt)
 		if !ok || !strings.HasSuffix(core.ExprStr(rs.X), "FunctionSection") {
 			continue
